@@ -918,6 +918,8 @@ class Emit:
         s = self.ex(e)
         return s if re.fullmatch(r"[A-Za-z_][A-Za-z0-9_.]*", s) or s.startswith("(") else "(" + s + ")"
     def path_expr(self, path):
+        nm = self.unit.get("names", {})
+        if "::".join(path) in nm: return nm["::".join(path)]
         if path == ["None"]: return "none"
         if path == ["true"] or path == ["false"]: return path[0]
         if path == ["self"]: return "self"
@@ -1079,6 +1081,11 @@ class Emit:
     def match_head(self, e):
         e = self.desugar_guards(e)
         scr, arms = e[1], e[2]
+        stubs = self.unit.get("stub_arms", {}).get(self.cur_fn, [])
+        if stubs:
+            arms = [((p[0], p[1], [(f, ("wild",)) for f, _ in p[2]], p[3]) if p[0] == "pstruct" else p, g,
+                     ("call", ("path", ["unmodelled"]), [("str", "::".join(p[1]))])) if p[0] in ("pctor", "pstruct") and "::".join(p[1]) in stubs else (p, g, b)
+                    for p, g, b in arms]
         tup = scr[0] == "tuple" and len(scr[1]) >= 2
         n = len(scr[1]) if tup else 1
         out = []
@@ -1190,6 +1197,10 @@ class Emit:
     def _stmt(self, s, ind):
         if s[0] == "let":
             _, p, mut, ty, init, els = s
+            te = self.unit.get("typed_externs", [])
+            if ty is not None and init is not None and init[0] == "try" and init[1][0] == "call" and init[1][1][0] == "path" \
+               and "_".join(init[1][1][1]) in te:
+                init = ("try", ("call", ("path", ["_".join(init[1][1][1]) + "_" + ty[1]]), init[1][2]))
             if els is not None: raise Unsupported("let-else")
             if init is None: raise Unsupported("let without initialiser")
             tys = f" : {self.ty(ty)}" if ty is not None else ""
@@ -1266,6 +1277,11 @@ class Emit:
             if self.effects and self.call_is_effectful(e):
                 return [ind + f"let _ ← {self.ex(e)[3:-1] if self.ex(e).startswith('(← ') else self.ex(e)}"]
             raise Unsupported(f"method call statement .{m}()")
+        if k == "try" and e[1][0] == "mcall" and self.ext_methods.get(e[1][2], {}).get("assign_arg") is not None:
+            mc = e[1]; em = self.ext_methods[mc[2]]; a = mc[3][em["assign_arg"]]
+            if a[0] != "path" or len(a[1]) != 1: raise Unsupported("out-parameter that is not a local variable")
+            v = self.ex(e)
+            return [ind + f"{lname(a[1][0])} := {v}"]
         if k == "try":
             v = self.ex(e)
             return [ind + f"let _ ← {v[3:-1]}"] if v.startswith("(← ") and v.endswith(")") else [ind + f"let _ := {v}"]
@@ -1449,15 +1465,15 @@ def translate_unit(unit, repo):
             em.cur_owner = ""
             for kind, key, ln, it, f in decls:
                 src = f"-- {f} :: {key}"
-                if kind == "const": em.cur_owner = ""; out.append(src + "\n" + em.const(it))
-                elif kind == "enum": out.append(src + "\n" + em.enum(it))
-                elif kind == "struct": out.append(src + "\n" + em.struct(it))
-                elif kind == "lean": out.append("-- handwritten in tools/rs2lean_spec.py (trusted)\n" + it["text"])
-                elif kind == "closure": out.append(src + "\n" + em.closure_fn(key, ln, it))
+                if kind == "const": em.cur_owner = ""; out.append(("type", src + "\n" + em.const(it)))
+                elif kind == "enum": out.append(("type", src + "\n" + em.enum(it)))
+                elif kind == "struct": out.append(("type", src + "\n" + em.struct(it)))
+                elif kind == "lean": out.append(("type", "-- handwritten in tools/rs2lean_spec.py (trusted)\n" + it["text"]))
+                elif kind == "closure": out.append(("fn", src + "\n" + em.closure_fn(key, ln, it)))
                 elif kind == "frag":
                     em.cur_owner = it["owner"] or ""; em.cur_fn = key; em.cur_result = False; em.cur_self = None
-                    out.append(src + "\n" + f"def {ln} " + " ".join(f"({n} : {t})" for n, t in it["params"]) + f" : {it['rty']} :=\n  " + em.ex(it["expr"]))
-                else: out.append(src + "\n" + em.fn(key, ln, it))
+                    out.append(("fn", src + "\n" + f"def {ln} " + " ".join(f"({n} : {t})" for n, t in it["params"]) + f" : {it['rty']} :=\n  " + em.ex(it["expr"])))
+                else: out.append(("fn", src + "\n" + em.fn(key, ln, it)))
             break
         except _NeedsExt as e:
             em.fns_using_ext.add(e.ln)
@@ -1467,15 +1483,21 @@ def render(unit, out, em):
     ns = unit["module"]
     L = ["-- GENERATED by tools/rs2lean.py from the Rust source of /repo on every run. Do not edit.",
          "import SyModel.Generated.Prelude"] + [f"import {m}" for m in unit.get("imports", [])] + [
-         "set_option linter.unusedVariables false", f"namespace SyModel.Generated.{ns}", "open SyModel.Generated"]
+         "set_option linter.unusedVariables false\nset_option autoImplicit false", f"namespace SyModel.Generated.{ns}", "open SyModel.Generated"]
     for o in unit.get("opens", []): L.append(f"open {o}")
-    if unit.get("externs") or unit.get("ext_methods"):
-        L.append("/-- functions called by the translated code that are outside the translated subset (parameters of the model) -/")
-        ty_of = lambda t: t["type"] if isinstance(t, dict) else t
-        fields = [(lname(n), ty_of(t)) for n, t in unit["externs"].items()] + [(m["name"], m["type"]) for m in unit.get("ext_methods", {}).values()]
-        L.append(("structure Ext (W : Type) where\n" if unit.get("effects") else "structure Ext where\n") + "\n".join(f"  {n} : {t}" for n, t in fields))
     if unit.get("preamble"): L.append(unit["preamble"])
-    L += out
+    # constants and types in source order (a constant may precede the types: both kinds are declarations without `ext`),
+    # then the structure of externs (its field types may mention them), then the functions
+    decls = [t for k, t in out if k == "type"]
+    fns = [t for k, t in out if k == "fn"]
+    # a `frag`/`fn` of a unit WITHOUT externs keeps its place relative to the types (e.g. a constant used by a type)
+    L += decls
+    if unit.get("externs") or unit.get("ext_methods"):
+        ty_of = lambda t: t["type"] if isinstance(t, dict) else t
+        fields = [(lname(n), ty_of(t)) for n, t in unit.get("externs", {}).items()] + [(m["name"], m["type"]) for m in unit.get("ext_methods", {}).values()]
+        L.append("/-- functions called by the translated code that are outside the translated subset (parameters of the model) -/\n"
+                 + ("structure Ext (W : Type) where\n" if unit.get("effects") else "structure Ext where\n") + "\n".join(f"  {n} : {t}" for n, t in fields))
+    L += fns
     L.append(f"end SyModel.Generated.{ns}")
     return "\n\n".join(L) + "\n"
 
